@@ -106,3 +106,5 @@ def run(F, rep, tier):
     n = field_use(rep, "C16-R6", F, crate, pats, F.adts("mech_core.lib"), "nodes::Pattern", lambda f: "Pattern" in f[1], exclude_fns=("summarize_pattern",))
     rep.floor("C16-R6", "pattern traversal arms with sub-pattern fields", n, 3)
     rep.analysed = {"pattern_functions": len(pats)}
+    from rules.loopshape import c16_loop_carried_args
+    c16_loop_carried_args(F, rep)
